@@ -281,6 +281,13 @@ def targeted_programs(dev):
                      "args": {"srack": "S", "s1": I(1), "s2": I(8), "drack": "D", "d1": I(1), "d2": I(96), "vol": {"cls": "cents", "v": cents}, "md": I(md)}}
                     for md in (fit + 50, fit + 1, fit, fit - 1)]
         progs.append(h)
+    # third decimals: what fits one aspiration is decided on the volume as given (4 x 237.504 = 950.016 does not fit 950)
+    lws = [gen.mk_plate("plate", 2, 2, 0, 10, [0, 0, 0, 0])]
+    h = gen.header("emit/multidisp-third-decimal", dev, Fraction(1), 950, lws, flags={"comp": False, "norm": False, "robot": False})
+    h["ops"] = [{"op": "emit", "fn": "reagent_distribution",
+                 "args": {"srack": "S", "s1": I(1), "s2": I(8), "drack": "D", "d1": I(1), "d2": I(96), "vol": v, "md": I(md)}}
+                for v, md in ((237504, 4), (237496, 4), (237500, 4), (237501, 4), (316668, 3), (316666, 3), (95004, 10), (94996, 10), (475004, 2), (949996, 1))]
+    progs.append(h)
     # few destination wells (also after exclusions): the multi-dispense count depends on volume and max_volume only
     lws = [gen.mk_plate("plate", 2, 2, 0, 10, [0, 0, 0, 0])]
     h = gen.header("emit/multidisp-few-wells", dev, Fraction(1), 950, lws, flags={"comp": False, "norm": False, "robot": False})
